@@ -99,12 +99,16 @@ type Opts struct {
 	IdxCompare bool  // x[i] == y style (index directly followed by '=')
 	FullWidth bool   // ＋－＊／
 	NullVars  bool   // reads of undefined variables
+	// SingleKeyDicts keeps every dict at one key at most, so that nothing a program can
+	// observe depends on Go map iteration order (toStr/repr/templates/keys() of a dict).
+	SingleKeyDicts bool
+	StrIndexOOB bool // string literal indexed outside its length ('abc'[5], ''[0])
 	Avoid     func(string) bool
 }
 
 func DefaultOpts() Opts {
 	return Opts{MaxStmts: 8, MaxDepth: 4, Stmts: true, Computed: true, Templates: true, Bitwise: true, Floats: true,
-		SideFx: true, ThisAssign: true, BreakInIf: true, IdxCompare: true, FullWidth: true, NullVars: true}
+		SideFx: true, ThisAssign: true, BreakInIf: true, IdxCompare: true, FullWidth: true, NullVars: true, StrIndexOOB: true}
 }
 
 // G is one generation context.
@@ -540,6 +544,18 @@ func (g *G) strExpr(d int) *Node {
 	case 7:
 		s := g.strLit()
 		n := len([]rune(s.S))
+		if !g.O.StrIndexOOB || g.avoid("str_index_oob") {
+			// in-range index only (C02-F02: an index outside a string is clamped instead of rejected)
+			if n == 0 {
+				s = Str("ab力", s.Q)
+				n = 3
+			}
+			i := int64(g.intn(n, "strIdx"))
+			if g.intn(3, "strIdxNeg") == 0 {
+				i -= int64(n)
+			}
+			return N("idx", s, Int(i))
+		}
 		return N("idx", s, g.indexFor(n))
 	case 8:
 		s := g.strExpr(d - 1)
@@ -677,6 +693,9 @@ func (g *G) dictExpr(d int) *Node {
 	}
 	n := N("dict")
 	cnt := g.intn(4, "dictLen")
+	if g.O.SingleKeyDicts && cnt > 1 {
+		cnt = 1
+	}
 	for i := 0; i < cnt; i++ {
 		k := dictKeys[g.intn(len(dictKeys), "dictKey")]
 		var kn *Node
@@ -937,6 +956,13 @@ func (g *G) mutateStmt(d int) *Node {
 	}
 	v := dicts[g.intn(len(dicts), "mutDict")]
 	k := dictKeys[g.intn(len(dictKeys), "mutKey")]
+	if g.O.SingleKeyDicts {
+		if len(v.Keys) == 0 {
+			// the static key list may be incomplete (dict built from an expression): do not add keys
+			return g.assignStmt(d)
+		}
+		k = v.Keys[0]
+	}
 	has := false
 	for _, kk := range v.Keys {
 		if kk == k {
@@ -1024,6 +1050,10 @@ func (g *G) funcStmt(d int) []*Node {
 		inner.Put(&VarInfo{Name: p, T: TInt, Len: -1})
 	}
 	g.inFunc = true
+	// a function body is compiled on its own: a loop around the definition is not a loop
+	// its break/continue could leave (the parser rejects them there)
+	saveLoop := g.loopDepth
+	g.loopDepth = 0
 	body := Block()
 	kind := g.intn(4, "funcKind")
 	if kind == 0 && np >= 1 {
@@ -1045,6 +1075,7 @@ func (g *G) funcStmt(d int) []*Node {
 		}
 	}
 	g.inFunc = false
+	g.loopDepth = saveLoop
 	g.Env = saved
 	g.reserved = saveReserved
 	g.Env.Put(&VarInfo{Name: name, T: TFunc, Arity: np, Ret: TInt, Len: -1})
